@@ -541,6 +541,89 @@ func c14Enumerate(tier string, emit explore.Emit) {
 				}})
 		}
 	}
+	// values whose bytes read "\\.", "\\.\\n" or "\\.\\r\\n" (the TEXT format's end-of-data marker means nothing in a binary
+	// stream): every split with <= 2 cuts around them
+	{
+		marker := [][]byte{{0x5c, 0x2e, 0x0d, 0x0a}, {0x00, 0x5c, 0x2e, 0x0a}}
+		stream := pgproto.Cat(pgproto.BinaryCopyHeader(),
+			pgproto.BinaryCopyTuple([][]byte{marker[0], []byte("a\\.\nb")}),
+			pgproto.BinaryCopyTuple([][]byte{marker[1], []byte("\\.")}),
+			pgproto.BinaryCopyTuple([][]byte{{0, 0, 0, 3}, []byte("\\.\r\n")}),
+			pgproto.BinaryCopyTrailer())
+		want := []string{fmt.Sprintf("[%d %q]", int32(0x5c2e0d0a), "a\\.\nb"), fmt.Sprintf("[%d %q]", int32(0x005c2e0a), "\\."), fmt.Sprintf("[3 %q]", "\\.\r\n")}
+		n := len(stream)
+		var cutSets [][]int
+		for a := 19; a < n; a++ {
+			cutSets = append(cutSets, []int{a})
+			for b := a + 1; b <= a+4 && b < n; b++ {
+				cutSets = append(cutSets, []int{a, b})
+			}
+		}
+		for _, cuts := range cutSets {
+			cuts := cuts
+			emit(explore.Case{Family: "split", Size: 100 + len(cuts), Desc: func() any {
+				return map[string]any{"stream": "values spelling the text end-of-data marker", "cuts": cuts}
+			},
+				Run: func() explore.Result {
+					var res explore.Result
+					res.Outcome = "split"
+					res.Key = fmt.Sprint("marker", cuts)
+					o, eng := c14ServeWith([]string{"int4", "text"}, splitAt(stream, cuts), pgproto.CopyDone(), 0)
+					if eng != "" {
+						res.Engine = eng
+						return res
+					}
+					res.Trans = []string{"marker bytes|split|decoded"}
+					if !sameStrings(o.rows, want) || o.final != "eof" {
+						res.Fail("split-dependent", fmt.Sprintf("binary values spelling the text end-of-data marker, stream split at %v: rows %v, reader ended with %q; expected %v", cuts, o.rows, o.final, want))
+					}
+					return res
+				}})
+		}
+	}
+	// streams of 300 KiB and more in few large messages (one message, 200000-byte messages, 70000-byte messages)
+	for _, chunk := range []int{0, 200000, 70000, 65536} {
+		chunk := chunk
+		emit(explore.Case{Family: "many-rows", Size: 400, Desc: func() any { return map[string]any{"rows": 60, "value_bytes": 6000, "copydata_chunk": chunk} },
+			Run: func() explore.Result {
+				var res explore.Result
+				res.Outcome = "split"
+				res.Key = fmt.Sprint("big-stream", chunk)
+				stream := pgproto.BinaryCopyHeader()
+				var want []string
+				for r := 0; r < 60; r++ {
+					val := bytes.Repeat([]byte{byte('a' + r%26)}, 6000)
+					copy(val, fmt.Sprintf("row-%03d-", r))
+					stream = append(stream, pgproto.BinaryCopyTuple([][]byte{{0, 0, 0, byte(r)}, val})...)
+					want = append(want, fmt.Sprintf("[%d %q]", r, val))
+				}
+				stream = append(stream, pgproto.BinaryCopyTrailer()...)
+				var cuts []int
+				for c := chunk; chunk > 0 && c < len(stream); c += chunk {
+					cuts = append(cuts, c)
+				}
+				o, eng := c14ServeWith([]string{"int4", "text"}, splitAt(stream, cuts), pgproto.CopyDone(), 1<<20)
+				if eng != "" {
+					res.Engine = eng
+					return res
+				}
+				res.Trans = []string{"360 KB|decode|rows"}
+				if !sameStrings(o.rows, want) || o.final != "eof" {
+					first := "count"
+					for i := range want {
+						if i >= len(o.rows) || o.rows[i] != want[i] {
+							first = fmt.Sprintf("row %d differs", i)
+							if i < len(o.rows) {
+								first += fmt.Sprintf(" (decoded value begins %.40s)", o.rows[i])
+							}
+							break
+						}
+					}
+					res.Fail("split-dependent", fmt.Sprintf("60 rows with 6000-byte values (CopyData messages of %d bytes, 0 = one message): %d rows decoded, reader ended with %q; %s", chunk, len(o.rows), o.final, first))
+				}
+				return res
+			}})
+	}
 	// long streams: 300 rows with NULLs in changing positions, one message and 100-byte messages
 	for _, chunk := range []int{0, 100, 8192} {
 		chunk := chunk
